@@ -113,6 +113,12 @@ pub fn universe(full: bool) -> Vec<Arg> {
         u.push(comp("Mixed", "Struct", &["ut@Mixed"], &[&unit, &felt, &arr, &u256], &[]));
         u.push(comp("EnumWide", "Enum", &["ut@EnumWide"], &[&unit, &comp("Wide40", "Struct", &["ut@Tuple"], &(0..40).map(|_| &felt).collect::<Vec<&Arg>>(), &[]), &felt], &[]));
         u.push(comp("NZbi3", "NonZero", &[], &[&bis[3]], &[]));
+        // sizes at the i16 boundary: 2^14 cells, and 2^15 - 1 = 2^14 + 2^13 + .. + 1 cells
+        let mut chain: Vec<Arg> = vec![felt.clone()];
+        for i in 1..=14 { let prev = chain[i - 1].clone(); chain.push(comp(&format!("Pow{i}"), "Struct", &[&format!("ut@Pow{i}")], &[&prev, &prev], &[])); }
+        u.push(chain[14].clone());
+        let all: Vec<&Arg> = chain.iter().collect();
+        u.push(comp("Max32767", "Struct", &["ut@Max32767"], &all, &[]));
     }
     // values, user type, user function
     let vals: &[&str] = if full { &["0", "1", "-1", "2", "255", "32768", "18446744073709551616", two128, P_MINUS_1, P, "115792089237316195423570985008687907853269984665640564039457584007913129639936"] } else { &["0", "1", "-1", two128, P] };
